@@ -6,7 +6,23 @@
 From Coq Require Import String Ascii.
 From Coq Require Import List NArith ZArith Bool.
 Import ListNotations.
-From TarpcV Require Import Base Schema Wire WireProofs Framing FramingProofs.
+From TarpcV Require Import Base Schema Wire WireProofs Framing FramingProofs Shipped ShippedProofs.
+
+(* ---- MAIN THEOREM: the monitor accepts every run of the model ----
+   For every configuration (codec or channel, every list of read-chunk sizes, every cut position)
+   and every script of well-formed messages of one direction, raw payloads, reads and closes:
+   what the reading end yields is exactly what was written, in order, then end-of-stream; of a
+   stream cut inside a frame, exactly the whole frames (never a frame for the cut one), then
+   the end.  (Whether that end is reported as an error is C16's clause: Shipped.wire_strict_ok.) *)
+Theorem C15_monitor : forall c ops,
+  Forall (op_wf (is_c2s ops)) ops ->
+  c15_ok c ops (fst (run c ops)) = true.
+Proof. exact c15_monitor_holds. Qed.
+
+(* in-memory channels need no hypothesis at all *)
+Theorem C15_monitor_channels : forall c ops,
+  is_framed (codec c) = false -> c15_ok c ops (fst (run c ops)) = true.
+Proof. exact c15_monitor_channels. Qed.
 
 (* ---- the two codecs: decode (encode m) = Some m, for every message value ---- *)
 
@@ -154,6 +170,8 @@ Example C15_nonvacuous :
   = [FFrame [1; 2; 3]%N; FFrame []; FFrame [9]%N; FEnd].
 Proof. vm_compute. repeat split; reflexivity. Qed.
 
+Print Assumptions C15_monitor.
+Print Assumptions C15_monitor_channels.
 Print Assumptions C15_bincode_roundtrip.
 Print Assumptions C15_bincode_roundtrip_response.
 Print Assumptions C15_json_tree_roundtrip.
